@@ -267,7 +267,8 @@ fn parse_at_rule(
     if let Token::AtKeyword(x) = &*peek {
         input.next().ok();
         let at_keyword: &str = &x;
-        if at_keyword == "import" && ss.options.import_sign.is_some() {
+        // (at-keywords, pseudo-class names and function names are ASCII case-insensitive)
+        if at_keyword.eq_ignore_ascii_case("import") && ss.options.import_sign.is_some() {
             // process at-import if needed
             let import_sign = ss.options.import_sign.clone().unwrap();
             let start_pos = input.position();
@@ -393,7 +394,7 @@ fn parse_at_rule(
             ss.append_token(st, input, None);
             let x: &str = &x;
             let contain_rule_list = matches!(
-                x,
+                x.to_ascii_lowercase().as_str(),
                 "media" | "supports" | "document" | "layer" | "container" | "scope" | "starting-style"
             );
             loop {
@@ -465,8 +466,8 @@ fn parse_qualified_rule(input: &mut StepParser, ss: &mut StyleSheetTransformer) 
                 return Ok(());
             };
             let mut invalid = match &*next {
-                Token::Ident(x) if x.as_bytes() == b"host" => None,
-                Token::Function(x) if x.as_bytes() == b"host" => Some(input.position()),
+                Token::Ident(x) if x.eq_ignore_ascii_case("host") => None,
+                Token::Function(x) if x.eq_ignore_ascii_case("host") => Some(input.position()),
                 _ => return Err(input.new_custom_error(())),
             };
             let next = loop {
